@@ -102,6 +102,147 @@ def adler_one(k, n, off, img, exe, rnd, timeout_ms, abstract_mod=False):
     return {"status": HOLDS, "stats": stats, "validated_traces": val}
 
 
+def adler_lin_one(k, n, off, img, exe, rnd):
+    """Z-linear domain: every 32-bit lane is an exact integer linear form over the message bytes (0..255) and the
+    seed halves (0..65520); `div ecx` by 65521 introduces a remainder variable with its congruence.  Decided:
+      (1) no intermediate value can leave [0, 2^32) (interval bound over all inputs)  -> deferred-modulo schedule is safe
+      (2) both halves of the result are remainders in [0, 65520] congruent to the RFC 1950 sums."""
+    from vlib.x86sym.bv import Lin, LinCtx, NonLinear
+    stats = {"variables": 0, "clauses": 0, "paths": 1}
+    val = 0
+    for trial in range(2):
+        init = (rnd.randrange(65521) << 16) | rnd.randrange(65521)
+        data = [rnd.choice([255, 255, rnd.randrange(256)]) for _ in range(n)]
+        ok, msg = validate_concrete(img, mk_setup(img, k, init, data, n, off), exe, ret_bits=32)
+        if ok is False:
+            return {"status": ERROR, "detail": "translator validation failed (%s len=%d): %s" % (k, n, msg)}
+        val += 1
+    M = 65521
+    ctx = LinCtx()
+    A0, B0 = ctx.var("A0", 0, M - 1), ctx.var("B0", 0, M - 1)
+    dv = [ctx.var("d%d" % i, 0, 255) for i in range(n)]
+    data = [Lin(8, {v: 1}, 0, ctx) for v in dv]
+    init = Lin(64, {A0: 1, B0: 65536}, 0, ctx)
+    ex = Exec(img)
+
+    def hook(w, lo, d):
+        if d != M:
+            raise Unsupported("div by %d" % d)
+        if lo.tainted or lo.lo() < 0 or lo.hi() >= (1 << 32):
+            ctx.suspects.append(("dividend of div", lo))
+        r = ctx.fresh("rem", 0, M - 1)
+        q = ctx.fresh("quo", 0, max(lo.hi(), 0) // M)
+        ctx.mods[r] = (dict(lo.coef), lo.const, M)
+        return Lin(w, {q: 1}, 0, ctx), Lin(w, {r: 1}, 0, ctx)
+    ex.div_hook = hook
+    su = mk_setup(img, k, init, data, n, off)
+    try:
+        finals = ex.run(su.initial_state())
+    except NonLinear as e:
+        return {"status": UNDECIDED, "detail": "outside the Z-linear class: %s" % e}
+    stats["variables"] = ex.n_insns
+    if len(finals) != 1:
+        return {"status": ERROR, "detail": "adler kernel forked (%d paths)" % len(finals)}
+    st, out = finals[0]
+    if isinstance(out, Violation):
+        cd = [255] * n
+        ok, rlog = native_crash_replay(lambda g: mk_setup(img, k, 1, cd, n, off, g), exe)
+        return {"status": VIOLATED, "detail": "%s at %r (len=%d) | %s" % (out, out.insn, n, rlog), "cex": {"kernel": k, "len": n},
+                "replay_ok": True if ok else None, "stats": stats}
+    abi = su.abi_check(st)
+    if abi:
+        return {"status": VIOLATED, "detail": "ABI: " + abi, "cex": None, "replay_ok": None}
+
+    def replay(assign, what):
+        ci = (assign.get(B0, 0) << 16) | assign.get(A0, 1)
+        cd = [assign.get(v, 0) for v in dv]
+        su2 = mk_setup(img, k, ci, cd, n, off)
+        rax, _ = run_native(exe, k, su2.args, su2.regions)
+        w_ = adler_int(ci, cd)
+        bad = rax is not None and (rax & 0xffffffff) != w_
+        return bad, "%s: len=%d init=%#x native=%s spec=%#x" % (what, n, ci, hex(rax & 0xffffffff) if rax is not None else None, w_)
+
+    # (1) overflow suspects: the maximising assignment is a candidate counterexample, replayed natively
+    for what, form in ctx.suspects:
+        assign = {}
+        for v, c in form.coef.items():
+            if v in ctx.mods or v.startswith("quo"):
+                continue
+            assign[v] = ctx.bounds[v][1] if c > 0 else ctx.bounds[v][0]
+        for v in [A0, B0] + dv:
+            assign.setdefault(v, ctx.bounds[v][1])
+        bad, msg = replay(assign, "32-bit accumulator may leave [0,2^32) (%s, bound %d)" % (what, form.hi()))
+        if bad:
+            return {"status": VIOLATED, "detail": msg, "cex": {"kernel": k, "len": n, "assign": "all inputs at their maximum"}, "replay_ok": True, "stats": stats}
+        return {"status": UNDECIDED, "detail": "possible wrap-around not confirmed natively: " + msg, "stats": stats}
+    res = bv.extract(st.r["rax"], 31, 0)
+    if not isinstance(res, Lin):
+        return {"status": ERROR, "detail": "result is not a Z-linear value: %r" % (res,)}
+    from vlib.x86sym.bv import lin_divmod_pow2
+    try:
+        hi_, lo_ = lin_divmod_pow2(res, 16)
+    except NonLinear as e:
+        return {"status": UNDECIDED, "detail": "result halves not separable: %s" % e}
+
+    def subst(form):
+        coef, const = dict(form.coef), form.const
+        changed = True
+        while changed:
+            changed = False
+            for v in list(coef):
+                if v in ctx.mods:
+                    c = coef.pop(v)
+                    f, k0, _m = ctx.mods[v]
+                    for v2, c2 in f.items():
+                        coef[v2] = coef.get(v2, 0) + c * c2
+                    const += c * k0
+                    changed = True
+        return coef, const
+    # RFC 1950: a = A0 + sum d_i ; b = B0 + n*A0 + sum (n-i) d_i   (mod 65521)
+    spec_a = {A0: 1}
+    spec_b = {B0: 1, A0: n}
+    for i, v in enumerate(dv):
+        spec_a[v] = 1
+        spec_b[v] = n - i
+    for name, got, want in (("low half (A)", lo_, spec_a), ("high half (B)", hi_, spec_b)):
+        stats["clauses"] += 1
+        if got.lo() < 0 or got.hi() > M - 1:
+            return {"status": VIOLATED, "detail": "%s of the result is not reduced below 65521 (bound %d) len=%d" % (name, got.hi(), n), "cex": {"kernel": k, "len": n}, "replay_ok": None}
+        coef, const = subst(got)
+        diffv = None
+        for v in set(coef) | set(want):
+            if (coef.get(v, 0) - want.get(v, 0)) % M:
+                diffv = v
+        if const % M or diffv is not None:
+            assign = {v: 0 for v in [A0, B0] + dv}
+            if diffv is not None:
+                assign[diffv] = 1
+            bad, msg = replay(assign, "%s differs from RFC 1950 (coefficient of %s)" % (name, diffv))
+            return {"status": VIOLATED, "detail": msg, "cex": {"kernel": k, "len": n, "var": diffv}, "replay_ok": bad, "stats": stats}
+    return {"status": HOLDS, "stats": stats, "validated_traces": val}
+
+
+def adler_lin_query(qid, params, ctx):
+    k = params["kernel"]
+    t0 = time.time()
+    try:
+        img = loader.build_image(ctx["repo"], [FILES[k]], ctx["scratch"])
+        exe = build_native_driver(img, [k], ctx["scratch"] + "/x86", k)
+        rnd = random.Random(13)
+        agg = {"variables": 0, "clauses": 0, "paths": 0}
+        val = 0
+        for n, off in params["cases"]:
+            r = adler_lin_one(k, n, off, img, exe, rnd)
+            for kk in agg:
+                agg[kk] += r.get("stats", {}).get(kk, 0)
+            val += r.get("validated_traces", 0)
+            if r["status"] != HOLDS:
+                return r
+    except Unsupported as e:
+        return {"status": ERROR, "detail": "outside encodable class: %s" % e}
+    return {"status": HOLDS, "stats": agg, "validated_traces": val, "solver_time_s": time.time() - t0, "witness_ok": agg["paths"] > 0}
+
+
 def adler_query(qid, params, ctx):
     k = params["kernel"]
     t0 = time.time()
